@@ -123,6 +123,15 @@ C09_Recorded(C, R) ==
                 \* an exact zero at a reported step end: reported from one of the two adjacent steps
                 /\ (k + 1 <= nb /\ r = 0 /\ Opp(l, R.gsign[i][k + 2], C.events[i].dir) =>
                        Cardinality({ j \in 1..Len(R.t_events[i]) : R.t[k].r <= R.t_events[i][j].r /\ R.t_events[i][j].r <= R.t[k + 2].r }) >= 1)
+\* "when it has the same strict sign at both [ends of a step], none is [reported]": every reported event lies in some
+\* accepted step (closed) whose end values do not have the same strict sign (the final event point of a stopped run is
+\* the end of a partial step and is not judged here)
+C09_NoSpurious(C, R) ==
+    (IsSol(R) /\ ~C.hasT /\ ~C.hasFs /\ Len(C.events) > 0 /\ Len(R.t) >= 2) =>
+      \A i \in 1..Len(C.events) : \A j \in 1..Len(R.t_events[i]) :
+         LET te == R.t_events[i][j].r IN
+         (R.status = "UserInterrupt" /\ te = Last(R.t).r) \/
+         \E k \in 1..Len(R.t) - 1 : R.t[k].r <= te /\ te <= R.t[k + 1].r /\ ~Same(R.gsign[i][k], R.gsign[i][k + 1])
 \* a terminal count that was reached stops the run with UserInterrupt
 C10_Honoured(C, R) == (IsSol(R) /\ TermReached(C, R) # {}) => R.status = "UserInterrupt"
 C10_Recorded(C, R) ==
@@ -138,6 +147,7 @@ C10_Recorded(C, R) ==
 C11_Options(C, R) ==
     /\ (IsSol(R) /\ C.hasMs => R.ms.ok100)                                      \* no reported interval longer than max_step (1% on the last)
     /\ (R.e = "ret" /\ R.fs.has /\ ~IsErr(R) => R.fs.ok)                        \* first trial evaluates at x0 + c2*first_step
+    /\ (IsSol(R) /\ R.fs_iv.has => R.fs_iv.ok)                                   \* ... and the first reported interval is first_step
     /\ (~IsErr(R) /\ C.maxsteps >= 0 => R.nstep <= C.maxsteps + 1)
     /\ (~IsErr(R) /\ R.status = "NeedLargerNMax" => C.maxsteps >= 0 \/ C.api = "low")
 
@@ -145,6 +155,9 @@ C11_Options(C, R) ==
 \* index-1 differential-algebraic problems (singular mass): Radau solves them, the algebraic constraint holds at every
 \* stored sample and the differential components agree with the reduced ordinary system (facts of the recorder)
 C15_Dae(C, R) == (IsSol(R) /\ R.dae.has) => (R.dae.solved /\ R.dae.res_ok /\ R.dae.ref_ok)
+
+\* nonsingular non-identity mass: the result agrees (1e3 (rtol + atol) relative) with y' = M^-1 f integrated directly
+C15_MassRef(C, R) == (IsSol(R) /\ R.massref.has) => R.massref.ok
 
 (* ---------------------------------------------------------------- C18 *)
 C18_Counters(C, A, R) ==
